@@ -9,35 +9,68 @@ from ..core import g_bool, g_list, g_pair, g_str
 from ..driver import Prop
 
 
-def g_tok(t):
-    k = t[0]
-    if k == "m":
-        return "TM"
-    if k == "n":
-        return f"TN {t[1]}"
-    if k == "s":
-        return f"TS {g_str(t[1])}"
-    if k == "d":
-        return f"TD ({t[1]})%Z"
-    if k == "b":
-        return f"TB {g_bool(t[1])}"
-    return f"TO {g_str(str(t[1]))}"
+def g_pyval(v):
+    """A python scalar as handed out by DataFrame.itertuples, as a term of PyEq.pyval."""
+    import math
+    import zlib
+
+    import numpy as np
+    import pandas as pd
+
+    if v is None:
+        return "PNone"
+    if v is pd.NaT:
+        return "PNaT"
+    if v is pd.NA:
+        return "PNA"
+    if isinstance(v, (bool, np.bool_)):
+        return f"(PBool {g_bool(bool(v))})"
+    if isinstance(v, (int, np.integer)):
+        return f"(PInt ({int(v)})%Z)"
+    if isinstance(v, (float, np.floating)):
+        return f"(PFloat {T.fbits(float(v))})"       # the bit pattern as it is (NaN payloads included)
+    if isinstance(v, str):
+        return f"(PStr {g_str(v)})"
+    if isinstance(v, pd.Timestamp):
+        from ..cells import dt_ns
+
+        return f"(PDate ({dt_ns(v)})%Z)"
+    return f"(POther {zlib.crc32((type(v).__name__ + ':' + repr(v)).encode())})"
 
 
-def g_table(spec):
-    tk = T.spec_tokens(spec, bool_as_num=True)
-    nrows = tk["nrows"]
-    rows = [[c["values"][i] for c in tk["cols"]] for i in range(nrows)]
+def g_obj(table, cls=0):
+    """A pdtable.Table as a term of Equals.pyobj: class, origin, orientation, header and the cells of the frame."""
+    import zlib
+
+    df = table.df
+    rows = [list(r) for r in df.itertuples(index=False, name=None)]
+    origin = zlib.crc32(str(table.metadata.origin).encode())
     return (
-        f"(mk {g_str(spec['name'])} {g_list([g_str(d) for d in spec['dests']])} "
-        f"{g_list([g_str(c['name']) for c in spec['cols']])} {g_list([g_str(c['unit']) for c in spec['cols']])} "
-        f"{g_list([g_list([g_tok(x) for x in r]) for r in rows])})"
+        f"(OTable {cls} {origin} {g_bool(bool(table.metadata.transposed))} (mk {g_str(table.name)} "
+        f"{g_list([g_str(d) for d in sorted(table.metadata.destinations)])} "
+        f"{g_list([g_str(str(c)) for c in table.column_names])} {g_list([g_str(str(u)) for u in table.units])} "
+        f"{g_list([g_list([g_pyval(x) for x in r]) for r in rows])}))"
     )
+
+
+def scalar_pool():
+    import datetime
+
+    import numpy as np
+    import pandas as pd
+
+    return [0, 1, -1, 10, 10.0, 0.0, -0.0, 1.5, float("nan"), np.nan, np.float64(1.5), np.int64(10), np.float64("nan"),
+            float("inf"), -float("inf"), 2**53, float(2**53), 2**53 + 1, 2**64, float(2**64), -(2**63), 10**30, 1e30, 5e-324,
+            2.2250738585072014e-308, 0.1, 1 / 3, np.float32(0.1), np.int8(-1), np.uint64(2**63), np.int64(2**53 + 1),
+            True, False, np.bool_(True), "", "a", "1", "nan", "10", "True",
+            None, pd.NaT, pd.NA, pd.Timestamp("2020-01-01"), pd.Timestamp("2020-01-01 00:00:00.000001"),
+            pd.Timestamp("1999-01-01"), pd.Timestamp("2020-01-01").as_unit("s"), datetime.date(2020, 1, 1), (1, 2)]
 
 
 MUTATIONS = ["identity", "retype", "origin", "orientation", "name", "dest_add", "dest_remove", "dest_replace",
              "unit", "colname", "colorder", "cell", "row_add", "row_remove", "col_add", "col_remove",
-             "missing_flavour", "empty_vs_full", "unrelated", "nontable", "missing_respell", "strictness", "row_add_missing"]
+             "missing_flavour", "empty_vs_full", "unrelated", "nontable", "missing_respell", "strictness", "row_add_missing",
+             "nullable", "nullable_na", "nullable_cell", "subclass"]
 
 
 def mutate(rng, spec, mut):
@@ -132,11 +165,15 @@ def mutate(rng, spec, mut):
 class C14(Prop):
     id = "C14"
     coq_header = "From PdV.Corr Require Import C14."
-    rule = ("pairs (t, mutate(t)) for 23 single-aspect mutations of random tables (all column kinds, 0..6 rows), "
-            "both argument orders, plus unrelated pairs and non-table operands; expected verdict recomputed from "
-            "the specifications; non-trivial = tables with at least one column; distinct = distinct pairs")
+    rule = ("pairs (t, mutate(t)) for 27 single-aspect mutations of random tables (all column kinds, 0..6 rows; numpy and "
+            "pandas-nullable column types with pd.NA; Table and a subclass of Table), both argument orders, plus unrelated "
+            "pairs and non-table operands: the model's method_equals on the cells the frames hand out (ints as integers, "
+            "floats as bit patterns) against the four verdicts a.equals(b), b.equals(a), a.equals(a), b.equals(b); all "
+            "pairs of a 49-value scalar pool through _equal_or_same against the model's equal_or_same; expected verdict "
+            "recomputed independently from the specifications; non-trivial = tables with at least one column; "
+            "distinct = distinct pairs")
     assumptions = [
-        "H_eqv: _equal_or_same(a, b) == (token(a) == token(b)) for scalars of the generated kinds (checked on all pairs of a value pool on every run)",
+        "H_pyeq: python's == on int / bool / float compares exact values, on str and Timestamp contents (modelled in PyEq.py_eq; checked on all pairs of the scalar pool on every run)",
         "default row numbering (RangeIndex), every row holds one cell per column (pandas DataFrame invariant)",
     ]
 
@@ -161,6 +198,15 @@ class C14(Prop):
                 b["cols"][0]["values"][1] = {"i": big + 1}
                 out.append({"a": a, "b": b, "mut": "cell"})
                 out.append({"a": a, "b": copy.deepcopy(a), "mut": "identity"})
+        # a nullable integer column (whose cells are numpy scalars) against a float column holding the nearest float
+        for big in (2**53 + 1, 2**60 + 1, -(2**53) - 1):
+            a = {"name": "t", "dests": ["a"], "transposed": False, "nullable": True,
+                 "cols": [{"name": "n", "unit": "-", "kind": "int", "values": [{"i": 1}, {"i": big}]}]}
+            b = {"name": "t", "dests": ["a"], "transposed": False,
+                 "cols": [{"name": "n", "unit": "-", "kind": "float", "values": [{"f": (1.0).hex()}, {"f": float(big).hex()}]}]}
+            out += [{"a": a, "b": b, "mut": "cell"}, {"a": b, "b": a, "mut": "cell"}, {"a": a, "b": copy.deepcopy(a), "mut": "identity"}]
+        n = len(scalar_pool())
+        out += [{"scalars": [i, j], "mut": "scalars", "a": {"cols": []}, "b": None} for i in range(n) for j in range(n)]
         return out
 
     def generate(self, rng, tier):
@@ -181,6 +227,28 @@ class C14(Prop):
                 for c in b["cols"]:
                     c["values"] += [{"f": "nan"} if c["kind"] == "float" else {"nat": 1}] * (1 + i % 2)
                 cases.append({"a": t, "b": b, "mut": mut})
+                continue
+            if mut in ("nullable", "nullable_na", "nullable_cell"):
+                # pandas' nullable column types (Int64, Float64, string, boolean), whose missing cell is pd.NA
+                t = T.gen_table(rng, odd=False, kinds=["int", "float", "text", "onoff"], max_rows=4, bigint=False)
+                b = copy.deepcopy(t)
+                b["nullable"] = True
+                if mut != "nullable":
+                    t["nullable"] = True
+                    for c, cb in zip(t["cols"], b["cols"]):
+                        for k in range(len(c["values"])):
+                            if rng.random() < 0.4:
+                                c["values"][k] = {"na": 1}
+                                cb["values"][k] = {"na": 1}
+                    if mut == "nullable_cell" and t["cols"] and t["cols"][0]["values"]:
+                        cb = rng.choice(b["cols"])
+                        k = rng.randrange(len(cb["values"]))
+                        present = {"int": {"i": 7777}, "float": {"f": (7777.5).hex()}, "text": "seven", "onoff": {"b": True}}[cb["kind"]]
+                        cb["values"][k] = present if cb["values"][k] == {"na": 1} else {"na": 1}
+                cases.append({"a": t, "b": b, "mut": mut})
+                continue
+            if mut == "subclass":
+                cases.append({"a": t, "b": copy.deepcopy(t) if i % 2 else mutate(rng, t, "cell"), "mut": mut})
                 continue
             if mut == "missing_respell":
                 # the same empty cell spelled None in one table and NaN / NaT in the other (text columns are object arrays)
@@ -205,15 +273,34 @@ class C14(Prop):
 
     def run_impl(self, case):
         import pandas as pd
-        from pdtable import TableOrigin
+        from pdtable import Table, TableOrigin
+
+        if "scalars" in case:
+            from pdtable.proxy import _equal_or_same
+
+            pool = scalar_pool()
+            x, y = pool[case["scalars"][0]], pool[case["scalars"][1]]
+            raised = None
+            try:
+                got = bool(_equal_or_same(x, y))
+            except Exception as e:     # inside Table.equals an exception means "not equal" (the comparison cannot be made)
+                got, raised = False, type(e).__name__
+            return {"scalar": got, "raised": raised, "x": g_pyval(x), "y": g_pyval(y), "tok_equal": T.tok(x, True) == T.tok(y, True),
+                    "repr": [repr(x), repr(y)]}
+
+        class Derived(Table):
+            pass
 
         a = T.build_table(case["a"])
         if case["b"] is None:
             other = {"dict": case["a"], "df": pd.DataFrame(a.df), "none": None, "str": "t"}[case["other"]]
-            return {"ab": bool(a.equals(other)), "nontable": True}
+            return {"ab": bool(a.equals(other)), "nontable": True, "ga": g_obj(a)}
         kw = {"origin": "elsewhere"} if case["mut"] == "origin" else {}
+        if case["mut"] == "subclass":
+            kw["cls"] = Derived
         b = T.build_table(case["b"], **kw)
-        return {"ab": bool(a.equals(b)), "ba": bool(b.equals(a)), "aa": bool(a.equals(a)), "bb": bool(b.equals(b))}
+        return {"ab": bool(a.equals(b)), "ba": bool(b.equals(a)), "aa": bool(a.equals(a)), "bb": bool(b.equals(b)),
+                "ga": g_obj(a), "gb": g_obj(b, cls=1 if case["mut"] == "subclass" else 0)}
 
     def expected(self, case):
         ta = T.spec_tokens(case["a"], bool_as_num=True)
@@ -222,6 +309,11 @@ class C14(Prop):
 
     def oracle(self, case, obs):
         fails = []
+        if "scalar" in obs:
+            if obs["scalar"] != obs["tok_equal"]:
+                fails.append(f"cells: _equal_or_same({obs['repr'][0]}, {obs['repr'][1]}) gave {obs['scalar']}, by value and "
+                             f"missingness the two are {'equal' if obs['tok_equal'] else 'different'}")
+            return fails
         if obs.get("nontable"):
             if obs["ab"]:
                 fails.append("nontable: equals(non-table) returned True")
@@ -239,9 +331,15 @@ class C14(Prop):
         return fails
 
     def to_coq(self, case, obs):
-        if case["b"] is None or "ab" not in obs:
+        if "scalar" in obs:
+            if not isinstance(obs["scalar"], bool):
+                return None                    # an exception: reported by the oracle
+            return f"(KScalars {obs['x']} {obs['y']} {g_bool(obs['scalar'])})"
+        if obs.get("nontable"):
+            return f"(KOther {obs['ga']} 1 {g_bool(obs['ab'])})"
+        if "ab" not in obs:
             return None
-        return g_pair(g_pair(g_pair(g_table(case["a"]), g_table(case["b"])), g_bool(obs["ab"])), g_bool(obs["ba"]))
+        return f"(KTables {obs['ga']} {obs['gb']} {g_bool(obs['ab'])} {g_bool(obs['ba'])} {g_bool(obs['aa'])} {g_bool(obs['bb'])})"
 
     def nontrivial(self, case, obs):
         return bool(case["a"]["cols"])
@@ -251,7 +349,7 @@ class C14(Prop):
 
     def shrink(self, case):
         a, b = case["a"], case["b"]
-        if b is None:
+        if b is None or "scalars" in case:
             return
         na = len(a["cols"][0]["values"]) if a["cols"] else 0
         nb = len(b["cols"][0]["values"]) if b["cols"] else 0
@@ -270,26 +368,6 @@ class C14(Prop):
                 a2["cols"].pop(j)
                 b2["cols"].pop(j)
                 yield {**case, "a": a2, "b": b2}
-
-    def py_sweeps(self, tier):
-        import numpy as np
-        import pandas as pd
-        from pdtable.proxy import _equal_or_same
-
-        pool = [0, 1, -1, 10, 10.0, 0.0, -0.0, 1.5, float("nan"), np.nan, np.float64(1.5), np.int64(10), np.float64("nan"),
-                float("inf"), -float("inf"), 2**53, float(2**53), True, False, np.bool_(True), "", "a", "1", "nan", "10",
-                None, pd.NaT, pd.Timestamp("2020-01-01"), pd.Timestamp("2020-01-01 00:00:00.000001"), pd.Timestamp("1999-01-01")]
-        bad = []
-        for x in pool:
-            for y in pool:
-                try:
-                    got = bool(_equal_or_same(x, y))
-                except Exception as e:
-                    got = f"{type(e).__name__}"
-                if got != (T.tok(x, True) == T.tok(y, True)):
-                    bad.append((repr(x), repr(y), got))
-        fails = [f"H_eqv fails on {len(bad)} scalar pairs, e.g. {bad[0]}"] if bad else []
-        return fails, {"h_eqv_pairs": len(pool) ** 2}
 
 
 PROP = C14()
